@@ -82,6 +82,7 @@ BOXES = {
     "large": ([-1e4, -3e3], [1e4, 7e3]),
     "perdim": ([-1.0, -100.0], [0.01, 300.0]),
     "nondyadic": ([0.1, -0.3], [0.7, 0.9]),
+    "micro": ([-2e-7, 3e-8], [2e-7, 9e-8]),  # dimensions narrower than 1e-6
     "one": ([-2.0], [2.0]),
     "three": ([-1.0, 0.1, -1e4], [2.0, 0.7, 1e4]),
 }
@@ -164,11 +165,64 @@ def items(tier, seed):
         out.append(dict(name=f"cem-plan-{b}", kind="cem", box=b, plan=2, seed=seed, fine=False))
     for b in BOXES:
         out.append(dict(name=f"tanh-{b}", kind="tanh", box=b, seed=seed))
+    # optimize_cem over several iterations with objectives that pull the mean towards, onto and beyond a bound
+    for b in ["asym", "nondyadic", "perdim"] + (["tiny", "large", "three"] if thorough else []):
+        out.append(dict(name=f"cemopt-{b}", kind="cemopt", box=b, seed=seed, iters=5 if not thorough else 8))
     return out
 
 
+def work_cemopt(item, col):
+    """optimize_cem, several iterations: every candidate handed to the fitness function and the returned solution lie in the
+    box, whatever the objective does to the mean (targets at the centre, near / on a bound, far outside the box)."""
+    import jax
+    import jax.numpy as jnp
+
+    from rl_blox.blox.cross_entropy_method import optimize_cem
+
+    lo_l, hi_l = BOXES[item["box"]]
+    lo, hi = np.asarray(lo_l, np.float32), np.asarray(hi_l, np.float32)
+    E = "cross_entropy_method.optimize_cem"
+    w = hi.astype(np.float64) - lo.astype(np.float64)
+    targets = {"centre": (lo + hi) / 2, "near-upper": hi - 0.01 * w, "on-lower": lo.astype(np.float64), "beyond-upper": hi + 10 * w, "beyond-lower": lo - 10 * w,
+               "mixed": np.where(np.arange(len(lo)) % 2 == 0, hi + w, lo - w)}
+    for (tname, tgt), k, alpha in itertools.product(targets.items(), range(3), (0.0, 0.25)):
+        seen = []
+
+        def fitness(samples, tgt=tgt):
+            seen.append(np.asarray(samples))
+            return -jnp.sum(((samples - jnp.asarray(tgt, dtype=jnp.float32)) / jnp.asarray(w, dtype=jnp.float32)) ** 2, axis=-1)
+
+        mean0 = ((lo + hi) / 2).astype(np.float32)
+        var0 = ((w / 4) ** 2).astype(np.float32)
+        det = dict(box=item["box"], low=lo, high=hi, target=tname, key=k + item["seed"], alpha=alpha, iterations=item["iters"])
+        try:
+            sol = optimize_cem(fitness, jnp.asarray(mean0), jnp.asarray(var0), jax.random.key(k + item["seed"]), item["iters"], 8, 2, jnp.asarray(lo), jnp.asarray(hi),
+                               epsilon=0.0, alpha=alpha)
+        except Exception as e:  # noqa: BLE001
+            col.tick(1)
+            col.violation(SIG.format(E, K_RAISED), dict(det, error=repr(e)[:300]))
+            continue
+        col.tick(len(seen) * 8, ("cemopt", item["box"], tname, k, alpha))
+        col.outcome("optimize_cem_runs")
+        col.outcome("optimize_cem_iterations_observed", len(seen))
+        bad = None
+        for it, smp in enumerate(seen):
+            if not (np.all(np.isfinite(smp)) and np.all(smp >= lo) and np.all(smp <= hi)):
+                bad = (it, smp)
+                break
+        if bad is not None:
+            col.violation(SIG.format(E, K_OOB), dict(det, iteration=bad[0], candidates=bad[1]))
+            continue
+        sol = np.asarray(sol)
+        if not (np.all(np.isfinite(sol)) and np.all(sol >= lo) and np.all(sol <= hi)):
+            col.violation(SIG.format(E, K_OOB), dict(det, what="returned solution", solution=sol))
+        if len(seen) >= 3 and tname != "centre":
+            col.outcome("optimize_cem_runs_of_three_or_more_iterations_with_the_mean_pulled_to_a_bound")
+    col.sample(dict(kind="cemopt", box=item["box"], targets=sorted(targets), iterations=item["iters"]))
+
+
 def work(item, col):
-    {"tanh": work_tanh, "sa": work_sampler, "sta": work_sampler, "cem": work_cem, "loop": work_loop}[item["kind"]](item, col)
+    {"tanh": work_tanh, "sa": work_sampler, "sta": work_sampler, "cem": work_cem, "loop": work_loop, "cemopt": work_cemopt}[item["kind"]](item, col)
 
 
 # =========================================================================================
